@@ -361,6 +361,8 @@ def digest(res, mat=True, msg_texts=()):
     if res["r"] == "ok":
         code, eep = unhex(res["code"]), unhex(res["eeprom"])
         r["codelen"], r["eeplen"] = len(code), len(eep)
+        if "code_len" in res:
+            r["codelen"], r["eeplen"] = res["code_len"], res["eeprom_len"]
         if mat:
             r["code"], r["eeprom"] = code, eep
         r["sizes"] = [res["fs"], res["es"], res["rs"]]
